@@ -1341,7 +1341,7 @@ Definition refutes (c : cfg) (h1 : list op) (ws : list tup) (h2 h3 h4 : list op)
 Ltac refute :=
   unfold refutes; split; [eexists; vm_compute; reflexivity|];
   split; [vm_compute; reflexivity|]; split; [vm_compute; lia|];
-  cbv zeta; intro H; apply fresh_atb_spec in H; vm_compute in H; discriminate.
+  cbv zeta; let H := fresh "H" in (intro H; apply fresh_atb_spec in H; vm_compute in H; discriminate).
 
 Lemma both_caches_refuted_lemma :
   exists c h1 ws h2 h3 h4 i keys,
@@ -1379,3 +1379,9 @@ Proof.
   exists w_cfg_coarse, [Tick 5; Write [w_t 1]; Request [w_k1] true 0 []], [w_t 2], [], [], [Tick 1], 1%nat, [w_k1].
   do 2 (split; [reflexivity|]). refute.
 Qed.
+
+(* constants of the non-vacuity examples in Props/C11.v *)
+Definition x_cfg_i : cfg := mkCfg false true 300 300 100 1000000 50 0 1.
+Definition x_cfg_q : cfg := mkCfg true false 300 300 100 1000000 50 0 1.
+Definition x_other (n : nat) : op := Write [mkTup (N.of_nat n) 1 9 1 false].
+
